@@ -296,7 +296,7 @@ func TestVerif_C30(t *testing.T) {
 	venum.Explore(t, venum.Cfg{Name: "roundtrip", Shardable: true}, func(x *venum.X) {
 		sh := shapes[x.Choose(len(shapes), "shape")]
 		rel := x.Pick("size-vs-threshold", "threshold-1", "threshold", "threshold+1")
-		carrier := x.Pick("custom-metadata", "none", "on-batch", "meta-arg")
+		carrier := x.Pick("custom-metadata", "none", "on-batch", "meta-arg", "both-sharing-a-key")
 		smeta := x.Pick("schema-metadata", "none", "app-key", "log_level-key", "location-key")
 		zs := x.Bool("zstd")
 
@@ -319,6 +319,13 @@ func TestVerif_C30(t *testing.T) {
 			orig = vfWithMeta(orig, "k", "v")
 		case "meta-arg":
 			argMeta = arrow.NewMetadata([]string{"k"}, []string{"v"})
+		case "both-sharing-a-key":
+			// the batch still carries metadata from an earlier life AND metadata is handed over for
+			// this emission; they disagree on one key. The handed-over metadata is the authoritative
+			// one everywhere in this package (an inline write replaces the attached metadata with it),
+			// so that value has to come back; batch-only keys may or may not survive.
+			orig = vfWithMeta(orig, "k", "stale", "own", "1")
+			argMeta = arrow.NewMetadata([]string{"k", "arg"}, []string{"fresh", "2"})
 		}
 		wantMeta := vfC30Meta(orig, argMeta)
 		size := batchBufferSize(orig)
@@ -376,8 +383,14 @@ func TestVerif_C30(t *testing.T) {
 			x.Outcome("resolve %s", vfC30ErrClass(rerr))
 			return
 		}
-		if asp, d := vfC30Diff(orig, wantMeta, rb, vfC30Meta(rb, rm)); asp != "" {
-			if asp == "custom-metadata" && carrier == "meta-arg" {
+		gotMeta := vfC30Meta(rb, rm)
+		if carrier == "both-sharing-a-key" && gotMeta == "arg=2|k=fresh" {
+			gotMeta = wantMeta // batch-only key dropped: what an inline write does as well
+		}
+		if asp, d := vfC30Diff(orig, wantMeta, rb, gotMeta); asp != "" {
+			if asp == "custom-metadata" && carrier == "both-sharing-a-key" {
+				x.Failf(cls+":metadata-precedence", "%s %s zstd=%v: batch carries k=stale, the metadata handed over says k=fresh; after the round trip: %s", sh.name, rel, zs, d)
+			} else if asp == "custom-metadata" && carrier == "meta-arg" {
 				x.Failf(cls+":meta-arg-dropped", "%s %s zstd=%v: metadata passed in the meta argument is gone after the round trip: %s", sh.name, rel, zs, d)
 			} else {
 				x.Failf(cls+":"+carrier+":"+asp+"-differs", "%s %s zstd=%v: %s", sh.name, rel, zs, d)
